@@ -158,6 +158,19 @@ func (c BatchCase) Batch() spec.Batch {
 			doc.Fields = []spec.Field{f}
 			b.Docs = append(b.Docs, doc)
 		}
+	case "multival":
+		// N documents, each with Card values (instances) of field a; every value has the term
+		// x (with a location) and one term of its own: the OCCURRENCES of x in the batch
+		// (N*Card) cross 1024 while its hits (N) stay far below
+		for d := 0; d < c.N; d++ {
+			doc := spec.Doc{ID: fmt.Sprintf("m%03d", d)}
+			for v := 0; v < c.Card; v++ {
+				f := spec.Field{Name: "a", Len: 2, DV: c.Opt&2 != 0, AP: []uint64{uint64(v)},
+					Toks: []spec.Tok{{Term: "x", Freq: 1, Locs: []spec.Loc{{Pos: 1, Start: 0, End: 1, AP: []uint64{uint64(v)}}}}, {Term: fmt.Sprintf("u%d", v%5), Freq: 1}}}
+				doc.Fields = append(doc.Fields, f)
+			}
+			b.Docs = append(b.Docs, doc)
+		}
 	case "wide":
 		// N fields in one document (field ids beyond one byte), a 300-byte and a 70000-byte
 		// term, a stored value with 40 array positions
@@ -215,7 +228,7 @@ func (c BatchCase) NonTrivial() bool {
 			nz++
 		}
 	}
-	return nz >= 2 || c.Fam == "boundary" || c.Fam == "wide"
+	return nz >= 2 || c.Fam == "boundary" || c.Fam == "wide" || c.Fam == "multival"
 }
 
 func (c BatchCase) Key() string {
@@ -322,6 +335,15 @@ func ColumnBatches(tier string, emit func(BatchCase)) {
 				emit(BatchCase{Fam: "column", N: n, Cells: v, Comp: n%2 == 0, Opt: 3, Mode: mode})
 			}
 		})
+	}
+}
+
+// MultiValBatches: few documents with hundreds of values of one field (see "multival").
+func MultiValBatches(tier string, emit func(BatchCase)) {
+	for _, nc := range [][2]int{{4, 256}, {2, 520}, {3, 342}, {4, 255}, {1, 1024}, {1, 1023}} {
+		for _, mode := range []uint32{1026, 1025, 1024} {
+			emit(BatchCase{Fam: "multival", N: nc[0], Card: nc[1], Opt: 2, Mode: mode})
+		}
 	}
 }
 
